@@ -38,15 +38,62 @@ type DroppedColumnsResult struct {
 	Columns      []DroppedColumnInfo `json:"columns"`
 }
 
-// Extended pg_attribute schema that includes attisdropped
+// pg_attribute up to attisdropped as PostgreSQL 16 lays it out (attstattarget moved behind attinhcount)
 var schemaPGAttrDropped = []Column{
 	{Name: "attrelid", TypID: OidOid, Len: 4},
 	{Name: "attname", TypID: OidName, Len: 64},
 	{Name: "atttypid", TypID: OidOid, Len: 4},
 	{Name: "attlen", TypID: OidInt2, Len: 2},
 	{Name: "attnum", TypID: OidInt2, Len: 2},
+	{Name: "attcacheoff", TypID: OidInt4, Len: 4},
 	{Name: "atttypmod", TypID: OidInt4, Len: 4},
 	{Name: "attndims", TypID: OidInt2, Len: 2},
+	{Name: "attbyval", TypID: OidBool, Len: 1},
+	{Name: "attalign", TypID: OidChar, Len: 1},
+	{Name: "attstorage", TypID: OidChar, Len: 1},
+	{Name: "attcompression", TypID: OidChar, Len: 1},
+	{Name: "attnotnull", TypID: OidBool, Len: 1},
+	{Name: "atthasdef", TypID: OidBool, Len: 1},
+	{Name: "atthasmissing", TypID: OidBool, Len: 1},
+	{Name: "attidentity", TypID: OidChar, Len: 1},
+	{Name: "attgenerated", TypID: OidChar, Len: 1},
+	{Name: "attisdropped", TypID: OidBool, Len: 1},
+}
+
+// PostgreSQL 14-15: attstattarget after atttypid, attndims is an int4 in front of attcacheoff
+var schemaPGAttrDroppedV15 = []Column{
+	{Name: "attrelid", TypID: OidOid, Len: 4},
+	{Name: "attname", TypID: OidName, Len: 64},
+	{Name: "atttypid", TypID: OidOid, Len: 4},
+	{Name: "attstattarget", TypID: OidInt4, Len: 4},
+	{Name: "attlen", TypID: OidInt2, Len: 2},
+	{Name: "attnum", TypID: OidInt2, Len: 2},
+	{Name: "attndims", TypID: OidInt4, Len: 4},
+	{Name: "attcacheoff", TypID: OidInt4, Len: 4},
+	{Name: "atttypmod", TypID: OidInt4, Len: 4},
+	{Name: "attbyval", TypID: OidBool, Len: 1},
+	{Name: "attalign", TypID: OidChar, Len: 1},
+	{Name: "attstorage", TypID: OidChar, Len: 1},
+	{Name: "attcompression", TypID: OidChar, Len: 1},
+	{Name: "attnotnull", TypID: OidBool, Len: 1},
+	{Name: "atthasdef", TypID: OidBool, Len: 1},
+	{Name: "atthasmissing", TypID: OidBool, Len: 1},
+	{Name: "attidentity", TypID: OidChar, Len: 1},
+	{Name: "attgenerated", TypID: OidChar, Len: 1},
+	{Name: "attisdropped", TypID: OidBool, Len: 1},
+}
+
+// PostgreSQL 12-13: attstorage in front of attalign, no attcompression
+var schemaPGAttrDroppedV12 = []Column{
+	{Name: "attrelid", TypID: OidOid, Len: 4},
+	{Name: "attname", TypID: OidName, Len: 64},
+	{Name: "atttypid", TypID: OidOid, Len: 4},
+	{Name: "attstattarget", TypID: OidInt4, Len: 4},
+	{Name: "attlen", TypID: OidInt2, Len: 2},
+	{Name: "attnum", TypID: OidInt2, Len: 2},
+	{Name: "attndims", TypID: OidInt4, Len: 4},
+	{Name: "attcacheoff", TypID: OidInt4, Len: 4},
+	{Name: "atttypmod", TypID: OidInt4, Len: 4},
 	{Name: "attbyval", TypID: OidBool, Len: 1},
 	{Name: "attstorage", TypID: OidChar, Len: 1},
 	{Name: "attalign", TypID: OidChar, Len: 1},
@@ -58,25 +105,34 @@ var schemaPGAttrDropped = []Column{
 	{Name: "attisdropped", TypID: OidBool, Len: 1},
 }
 
-// V15 schema with attstattarget
-var schemaPGAttrDroppedV15 = []Column{
-	{Name: "attrelid", TypID: OidOid, Len: 4},
-	{Name: "attname", TypID: OidName, Len: 64},
-	{Name: "atttypid", TypID: OidOid, Len: 4},
-	{Name: "attstattarget", TypID: OidInt4, Len: 4},
-	{Name: "attlen", TypID: OidInt2, Len: 2},
-	{Name: "attnum", TypID: OidInt2, Len: 2},
-	{Name: "atttypmod", TypID: OidInt4, Len: 4},
-	{Name: "attndims", TypID: OidInt2, Len: 2},
-	{Name: "attbyval", TypID: OidBool, Len: 1},
-	{Name: "attstorage", TypID: OidChar, Len: 1},
-	{Name: "attalign", TypID: OidChar, Len: 1},
-	{Name: "attnotnull", TypID: OidBool, Len: 1},
-	{Name: "atthasdef", TypID: OidBool, Len: 1},
-	{Name: "atthasmissing", TypID: OidBool, Len: 1},
-	{Name: "attidentity", TypID: OidChar, Len: 1},
-	{Name: "attgenerated", TypID: OidChar, Len: 1},
-	{Name: "attisdropped", TypID: OidBool, Len: 1},
+// plausibleAttrRow tells whether a pg_attribute row read under some layout carries a legal
+// attalign ('c', 's', 'i', 'd') and attstorage ('p', 'e', 'm', 'x'): in each of the three layouts these
+// two bytes sit where the other two layouts have bytes that can never be both legal
+func plausibleAttrRow(row map[string]interface{}) bool {
+	align, storage := getString(row, "attalign"), getString(row, "attstorage")
+	return len(align) == 1 && strings.Contains("csid", align) &&
+		len(storage) == 1 && strings.Contains("pemx", storage)
+}
+
+// readAttrRowsWithDropped reads the live pg_attribute rows under the layout (16, 14-15, 12-13) that
+// gives the most rows with a legal attalign/attstorage pair (the first such layout on a tie; no rows
+// when no layout gives any)
+func readAttrRowsWithDropped(data []byte) []map[string]interface{} {
+	var best []map[string]interface{}
+	bestScore := 0
+	for _, schema := range [][]Column{schemaPGAttrDropped, schemaPGAttrDroppedV15, schemaPGAttrDroppedV12} {
+		rows := ReadRows(data, schema, true)
+		score := 0
+		for _, row := range rows {
+			if plausibleAttrRow(row) {
+				score++
+			}
+		}
+		if score > bestScore {
+			best, bestScore = rows, score
+		}
+	}
+	return best
 }
 
 // droppedColumnRegex matches PostgreSQL's dropped column naming pattern
@@ -138,12 +194,7 @@ func FindDroppedColumns(dataDir, dbName string) (*DroppedColumnsResult, error) {
 func parseDroppedColumns(data []byte, tableNames map[uint32]string) []DroppedColumnInfo {
 	var dropped []DroppedColumnInfo
 	
-	// Try V16 schema first
-	rows := ReadRows(data, schemaPGAttrDropped, true)
-	if len(rows) == 0 {
-		// Try V15 schema
-		rows = ReadRows(data, schemaPGAttrDroppedV15, true)
-	}
+	rows := readAttrRowsWithDropped(data)
 	
 	for _, row := range rows {
 		// Check if column is dropped
@@ -299,11 +350,7 @@ func RecoverDroppedColumnData(dataDir, dbName, tableName string, attNum int) (*D
 func parseAllAttributes(data []byte, relOID uint32) []DroppedColumnInfo {
 	var attrs []DroppedColumnInfo
 	
-	// Try V16 schema first
-	rows := ReadRows(data, schemaPGAttrDropped, true)
-	if len(rows) == 0 {
-		rows = ReadRows(data, schemaPGAttrDroppedV15, true)
-	}
+	rows := readAttrRowsWithDropped(data)
 	
 	for _, row := range rows {
 		relid := getOID(row, "attrelid")
